@@ -12,7 +12,7 @@ import json
 import sys
 
 mode, work, result_path = sys.argv[1], sys.argv[2], sys.argv[3]
-SO = "/verif/.build/pyext/release/libbourse.so"
+SO = os.environ.get("VERIF_BUILD", "/verif/.build") + "/pyext/release/libbourse.so"
 spec = importlib.util.spec_from_file_location("core", SO)
 core = importlib.util.module_from_spec(spec)
 spec.loader.exec_module(core)
@@ -280,7 +280,7 @@ def check_market_data(name, md, hist, tr):
 def load_data_processing():
     import os
     sys.path.insert(0, "/verif/py/standin")
-    spec = importlib.util.spec_from_file_location("bourse_data_processing", "/repo/src/bourse/data_processing.py")
+    spec = importlib.util.spec_from_file_location("bourse_data_processing", os.environ.get("VERIF_REPO", "/repo") + "/src/bourse/data_processing.py")
     mod = importlib.util.module_from_spec(spec)
     spec.loader.exec_module(mod)
     return mod
